@@ -1489,7 +1489,7 @@ int main(int argc, char **argv)
         return 2;
     }
     Sink sink(a);
-    long total = (long)((a.thorough() ? 24000 : 3200) * a.scale);
+    long total = (long)((a.thorough() ? 60000 : 12000) * a.scale);
     for (long c = 0; c < total; ++c)
     {
         if (!mine(a, c) || !sink.wanted(c)) continue;
